@@ -120,6 +120,11 @@ def inproc (c : Cfg) (sub : Nat) (micro : Nat → Frame) (ase : Bool) : Result :
 
 /-! ### external programs polled through files (LAMMPS, CP2K) -/
 
+/-- "The program" is the whole process group / session the engine created for this propagation
+    (`preexec_fn=os.setsid`): a launcher (`srun`, `mpiexec`, wrapper script) together with the MD executable it
+    started.  `alive` = some member is still running; `killed`/`dead` in the loop models speak about the group —
+    the code signals it with `os.killpg(os.getpgid(pid), SIGTERM)`.  (The tie checks the whole group with a
+    launcher-mode fake program.) -/
 structure World where
   file : Bool      -- the trajectory file(s) exist
   vis : Nat        -- complete frames in the .lammpstrj / -pos-1.xyz file
